@@ -203,7 +203,7 @@ pub fn axis_mesh(rng: &mut Rng, n: usize, max_ratio: f64, grid_bits: u32) -> Vec
             k += unit * rng.range(1, max_ratio as i64);
         }
     } else {
-        let base = *rng.pick(&[1e-3, 0.1, 1.0, 7.3, 1e3]);
+        let base = *rng.pick(&[1e-3, 0.1, 1.0, 7.3, 1e3, 9.5e-10, 3.0e-7, 2.5e8]);
         let mut v = rng.uniform(-20.0, 20.0) * base;
         for _ in 0..n {
             x.push(v);
